@@ -198,6 +198,53 @@ def run(job):
                 vols.append('error:' + repr(e)[:200])
         res['volumes'] = vols
         return res
+    if op == 'tables':
+        # translator validation: the functions / constants the translator reads, run as they are
+        from femio.formats.fistr.write_fistr import FistrWriter
+        from femio.formats.fistr.fistr import FrontISTRData
+        from femio.fem_elemental_attribute import FEMElementalAttribute
+        w = object.__new__(FistrWriter)
+        rd = object.__new__(FrontISTRData)
+
+        def call(f, *a):
+            try:
+                v = f(*a)
+                return ['ok', v if isinstance(v, str) else repr(v)]
+            except Exception as e:  # noqa
+                return ['raise', type(e).__name__]
+        # a function that no longer exists under this name (moved / inlined by a refactor) is
+        # reported as missing: nothing to validate, the text / read correspondence decides
+        res['missing'] = []
+        et = getattr(FEMElementalAttribute, 'ELEMENT_TYPES', None)
+        if et is None:
+            res['missing'].append('ELEMENT_TYPES')
+        else:
+            res['element_types'] = [str(t) for t in et]
+        f = getattr(w, 'detect_fistr_element_type', None)
+        if f is None:
+            res['missing'].append('detect_fistr_element_type')
+        else:
+            res['detect'] = {t: call(f, t) for t in job['types']}
+        f = getattr(rd, '_convert_fistr_element_type', None)
+        table = getattr(FrontISTRData, 'DICT_FISTR_ELEMENTS', None)
+        if f is None or not isinstance(table, dict):
+            res['missing'].append('_convert_fistr_element_type / DICT_FISTR_ELEMENTS')
+        else:
+            codes = sorted(set(job['codes']) | set(str(k) for k in table))
+            res['convert'] = {c: call(f, c) for c in codes}
+        f = getattr(w, '_reorder_prism_data', None)
+        if f is None:
+            res['missing'].append('_reorder_prism_data')
+        else:
+            try:
+                arg = np.arange(12, dtype=np.int64).reshape(2, 6) + 10
+                keep = arg.copy()
+                out = np.asarray(f(arg))
+                res['reorder'] = {'rows': [[int(x) for x in r] for r in out],
+                                  'argument_unchanged': bool(np.array_equal(arg, keep))}
+            except Exception as e:  # noqa
+                res['reorder'] = {'error': repr(e)[:200]}
+        return res
     raise ValueError(op)
 
 
